@@ -1,5 +1,6 @@
 """C11 cross-process determinism probe — executed in a FRESH interpreter under a given PYTHONHASHSEED:
     python c11_probe.py <variant-seed> <rebuild-rounds> [name ...]
+    python c11_probe.py <variant-seed> fresh <recompile-program> <label>
 Builds a directed set of programs written directly against PyTeal's public API (dict/set/enum driven constructs:
 InnerTxnBuilder.MethodCall / ExecuteMethodCall / SetFields / Execute with several fields, transaction-typed method
 arguments, Router programs, subroutine-heavy programs, many ScratchVars, Cond, NamedTuple, abi.make, methods with
@@ -226,28 +227,67 @@ def programs(vseed):
                           pt.Assert(pt.Int(1), pt.Int(2), comment="both"), pt.Approve()), 8)
 
     # ------------------------------------------------------------------------------------------
-    # the SAME object compiled again (and at another version in between): annotated constructs and everything else whose
-    # __teal__ might write to self.  Returns [(label, value)] per attempt; attempts with equal labels must be equal.
-    def attempts(expr, mode, cfgs):
-        out = []
-        for label, kw in cfgs:
-            try:
-                out.append([label, ["ok", pt.compileTeal(expr, mode, **kw)]])
-            except RecursionError:
-                out.append([label, ["exc", "RecursionError"]])
-            except Exception as e:  # noqa
-                out.append([label, ["exc", type(e).__name__]])
-        return out
-
-    A, B, C = ("v6", {"version": 6}), ("v8", {"version": 8}), ("v10-noopt", {"version": 10, "optimize": pt.OptimizeOptions(scratch_slots=False)})
-    seq3 = [A, A, B, A, C, B, A]
+    # the SAME object compiled again, in version orders that cross PyTeal's version-dependent lowering choices in both
+    # directions (extract family at 5, assert at 3, cover/uncover at 5, frame pointers at 8, optimiser default at 9).
+    # A recompile program is {"build": () -> compile(label) -> text, "seq": [labels]}; the child compiles ONE object along
+    # seq; the driver compares every attempt with a FRESH object compiled once at that label in a fresh interpreter.
+    OPT = pt.OptimizeOptions
+    CFG = {
+        "v2": {"version": 2}, "v3": {"version": 3}, "v4": {"version": 4}, "v5": {"version": 5}, "v6": {"version": 6}, "v7": {"version": 7},
+        "v8": {"version": 8}, "v9": {"version": 9}, "v10": {"version": 10},
+        "v5ac": {"version": 5, "assembleConstants": True}, "v8nofp": {"version": 8, "optimize": OPT(frame_pointers=False)},
+        "v10noopt": {"version": 10, "optimize": OPT(scratch_slots=False)}, "v8opt": {"version": 8, "optimize": OPT(scratch_slots=True)},
+    }
     RC = {}
 
-    def rec(fn):
-        RC[fn.__name__] = fn
-        return fn
+    def rec(seq):
+        def deco(fn):
+            RC[fn.__name__] = {"build": fn, "seq": seq}
+            return fn
+        return deco
 
-    @rec
+    def expr_compiler(expr, mode):
+        return lambda label: pt.compileTeal(expr, mode, **CFG[label])
+
+    def router_compiler(r):
+        def c(label):
+            kw = dict(CFG[label])
+            if "assembleConstants" in kw:
+                kw["assemble_constants"] = kw.pop("assembleConstants")
+            a_, c_, _ = r.compile_program(**kw)
+            return a_ + "\n====\n" + c_
+        return c
+
+    @rec(["v4", "v6", "v4", "v2", "v5", "v3", "v6", "v2", "v5ac", "v4"])
+    def recompile_bytes_lowering_v2_up():
+        x = pt.Txn.note()
+        v = pt.ScratchVar(T.bytes)
+        e = pt.Seq(
+            v.store(pt.Concat(x, pt.Bytes("abcdef"), pt.Bytes("base16", "0x0011"))),
+            pt.Pop(pt.Substring(v.load(), pt.Int(1), pt.Int(3))), pt.Pop(pt.Substring(x, pt.Int(0), pt.Int(0))),
+            pt.Pop(pt.Substring(x, pt.Int(2), pt.Int(300))), pt.Pop(pt.Substring(x, pt.Int(256), pt.Int(260))),
+            pt.Pop(pt.Substring(x, pt.Txn.fee(), pt.Int(5))), pt.Pop(pt.Len(pt.Concat(x, x, x))),
+            pt.If(pt.Txn.fee() > pt.Int(3), pt.Pop(pt.Int(1)), pt.Pop(pt.Int(2))),
+            pt.Assert(pt.Txn.fee() < pt.Int(9), comment="c"), pt.Assert(pt.Int(1), pt.Int(2), comment="d"),
+            pt.Cond([pt.Txn.fee() == pt.Int(1), pt.Int(1)], [pt.Int(1), pt.Int(2)]))
+        return expr_compiler(e, pt.Mode.Signature)
+
+    @rec(["v5", "v7", "v5", "v8", "v7", "v9", "v8", "v6", "v10", "v5"])
+    def recompile_extract_suffix_wide_v5_up():
+        x = pt.Txn.note()
+        mv = pt.App.globalGetEx(pt.Int(0), pt.Bytes("k"))
+        ah = pt.AssetHolding.balance(pt.Txn.sender(), pt.Int(1))
+        e = pt.Seq(
+            pt.Pop(pt.Extract(x, pt.Int(1), pt.Int(2))), pt.Pop(pt.Extract(x, pt.Int(0), pt.Int(0))), pt.Pop(pt.Extract(x, pt.Int(3), pt.Int(300))),
+            pt.Pop(pt.Extract(x, pt.Txn.fee(), pt.Int(2))), pt.Pop(pt.Suffix(x, pt.Int(2))), pt.Pop(pt.Suffix(x, pt.Int(300))), pt.Pop(pt.Suffix(x, pt.Txn.fee())),
+            pt.Pop(pt.Substring(x, pt.Int(1), pt.Int(3))), pt.Pop(pt.BytesZero(pt.Int(4))), pt.Pop(pt.Concat(pt.BytesZero(pt.Int(2)), x)),
+            pt.Pop(pt.ExtractUint16(x, pt.Int(0))), pt.Pop(pt.WideRatio([pt.Txn.fee(), pt.Int(3), pt.Int(5)], [pt.Int(2), pt.Int(7)])),
+            mv, ah, pt.Pop(pt.If(mv.hasValue(), mv.value(), pt.Int(0)) + pt.If(ah.hasValue(), ah.value(), pt.Int(0))),
+            pt.Cond([pt.Txn.fee() == pt.Int(1), pt.Pop(pt.Int(1))], [pt.Int(1), pt.Pop(pt.Int(2))]),
+            pt.Assert(pt.Txn.fee() <= pt.Int(1000), comment="fee too high"), pt.Approve())
+        return expr_compiler(e, pt.Mode.Application)
+
+    @rec(["v6", "v6", "v8", "v6", "v10noopt", "v8", "v7", "v8", "v7", "v9", "v8", "v6"])
     def recompile_assert_comment_pragma_nonce():
         v = pt.ScratchVar(T.uint64)
         mv = pt.App.globalGetEx(pt.Int(0), pt.Bytes("k"))
@@ -260,53 +300,63 @@ def programs(vseed):
             pt.Cond([v.load() == pt.Int(1), pt.Pop(pt.Int(1))], [pt.Int(1), pt.Pop(pt.WideRatio([v.load(), pt.Int(3)], [pt.Int(2)]))]),
             pt.Pop(pt.Nonce("base16", "0xabcd", pt.Int(7))),
             pt.Approve())
-        return attempts(pt.Pragma(body, compiler_version=">=0.20.0"), pt.Mode.Application, seq3)
+        return expr_compiler(pt.Pragma(body, compiler_version=">=0.20.0"), pt.Mode.Application)
 
-    @rec
+    @rec(["v2", "v3", "v2", "v5", "v3", "v5ac", "v3", "v2", "v5ac"])
     def recompile_signature_low_versions():
-        e = pt.Seq(pt.Assert(pt.Txn.fee() < pt.Int(9), comment="c"), pt.Assert(pt.Int(1), pt.Int(2), comment="d"), pt.Int(1))
-        return attempts(e, pt.Mode.Signature, [("v2", {"version": 2}), ("v3", {"version": 3}), ("v2", {"version": 2}), ("v3", {"version": 3}), ("v5ac", {"version": 5, "assembleConstants": True}),
-                                               ("v3", {"version": 3}), ("v5ac", {"version": 5, "assembleConstants": True})])
+        e = pt.Seq(pt.Assert(pt.Txn.fee() < pt.Int(9), comment="c"), pt.Assert(pt.Int(1), pt.Int(2), comment="d"),
+                   pt.Pop(pt.Substring(pt.Arg(0), pt.Int(1), pt.Int(3))), pt.Int(1))
+        return expr_compiler(e, pt.Mode.Signature)
 
-    @rec
+    @rec(["v7", "v8", "v7", "v9", "v8", "v6", "v8nofp", "v10", "v8opt", "v9", "v7", "v10noopt"])
     def recompile_subroutines_abi_itxn():
         @pt.Subroutine(T.uint64)
         def fact(n):
             t = pt.ScratchVar(T.uint64)
             return pt.Seq(pt.Assert(n < pt.Int(30), comment="bounded"), t.store(n), pt.If(n <= pt.Int(1), pt.Int(1), fact(n - pt.Int(1)) * t.load()))
 
+        @pt.Subroutine(T.none)
+        def swap(a: pt.ScratchVar, k, b: pt.ScratchVar):
+            t = pt.ScratchVar(T.uint64)
+            return pt.Seq(t.store(a.load() + k), a.store(b.load()), b.store(t.load()))
+
         @pt.ABIReturnSubroutine
         def inc(a: abi.Uint64, *, output: abi.Uint64):
             return pt.Seq(pt.Assert(a.get() < pt.Int(100), comment="small"), output.set(a.get() + pt.Int(1)))
         x, y = abi.Uint64(), abi.Uint64()
+        p_, q_ = pt.ScratchVar(T.uint64), pt.ScratchVar(T.uint64)
         tup = abi.make(abi.Tuple2[abi.Uint64, abi.String])
         s_ = abi.String()
+        opup = pt.OpUp(pt.OpUpMode.OnCall)
         e = pt.Seq(x.set(pt.Int(3)), inc(x).store_into(y), s_.set("s"), tup.set(y, s_), pt.Log(tup.encode()), pt.Pop(fact(y.get())),
+                   p_.store(pt.Int(1)), q_.store(pt.Int(2)), swap(p_, pt.Int(1), q_), opup.ensure_budget(pt.Int(2000)),
+                   pt.Pop(pt.Extract(s_.get(), pt.Int(0), pt.Int(1))), pt.Pop(pt.Substring(s_.get(), pt.Int(0), pt.Int(1))),
                    pt.InnerTxnBuilder.ExecuteMethodCall(app_id=pt.Int(1), method_signature="m(uint64)void", args=[y], extra_fields=ex2()),
                    pt.InnerTxnBuilder.Execute({F.type_enum: pt.TxnType.Payment, F.amount: pt.Int(1), F.receiver: pt.Txn.sender()}), pt.Approve())
-        return attempts(e, pt.Mode.Application, [A, A, B, B, A, C, C, B])
+        return expr_compiler(e, pt.Mode.Application)
 
-    @rec
-    def recompile_router_single_method():
-        out = []
-        for ret in (True, False):
-            r = pt.Router("rc", pt.BareCallActions(no_op=pt.OnCompleteAction.create_only(pt.Seq(pt.Assert(pt.Txn.fee() < pt.Int(5000), comment="bare"), pt.Approve()))),
-                          clear_state=pt.Seq(pt.Assert(pt.Int(1), comment="clear"), pt.Approve()))
-            if ret:
-                @r.method
-                def m(a: abi.Uint64, b: abi.String, *, output: abi.Uint64):
-                    return pt.Seq(pt.Assert(a.get() > pt.Int(0), comment="positive"), output.set(a.get() + pt.Len(b.get())))
-            else:
-                @r.method
-                def n(a: abi.Uint64):
-                    return pt.Seq(pt.Assert(a.get() > pt.Int(0), comment="positive"), pt.Assert(pt.Int(1), pt.Int(2), comment="two"))
-            for label, kw in [("v6", {"version": 6}), ("v6", {"version": 6}), ("v8", {"version": 8}), ("v8", {"version": 8}), ("v6", {"version": 6}), ("v8", {"version": 8})]:
-                try:
-                    a_, c_, _ = r.compile_program(**kw)
-                    out.append(["%s-%s" % (label, ret), ["ok", a_ + "\n====\n" + c_]])
-                except Exception as e:  # noqa
-                    out.append(["%s-%s" % (label, ret), ["exc", type(e).__name__]])
-        return out
+    def single_method_router(ret):
+        r = pt.Router("rc", pt.BareCallActions(no_op=pt.OnCompleteAction.create_only(pt.Seq(pt.Assert(pt.Txn.fee() < pt.Int(5000), comment="bare"), pt.Approve()))),
+                      clear_state=pt.Seq(pt.Assert(pt.Int(1), comment="clear"), pt.Approve()))
+        if ret:
+            @r.method
+            def m(a: abi.Uint64, b: abi.String, *, output: abi.Uint64):
+                return pt.Seq(pt.Assert(a.get() > pt.Int(0), comment="positive"), pt.Pop(pt.Substring(b.get(), pt.Int(0), pt.Int(1))),
+                              output.set(a.get() + pt.Len(b.get())))
+        else:
+            @r.method
+            def n(a: abi.Uint64, s: abi.DynamicBytes):
+                return pt.Seq(pt.Assert(a.get() > pt.Int(0), comment="positive"), pt.Assert(pt.Int(1), pt.Int(2), comment="two"),
+                              pt.Pop(pt.Suffix(s.get(), pt.Int(1))))
+        return router_compiler(r)
+
+    @rec(["v6", "v6", "v8", "v7", "v8", "v7", "v9", "v8", "v6", "v8nofp", "v10"])
+    def recompile_router_returning_method():
+        return single_method_router(True)
+
+    @rec(["v7", "v8", "v7", "v8", "v9", "v8", "v6", "v6", "v8nofp", "v6"])
+    def recompile_router_void_method():
+        return single_method_router(False)
 
     # ------------------------------------------------------------------------------------------
     # the same SOURCE built and compiled many times in one process, with unrelated allocations in between (object addresses,
@@ -360,6 +410,38 @@ def programs(vseed):
         gl = pt.ScratchVar(T.uint64)
         return pt.compileTeal(pt.Seq(gl.store(pt.Int(1)), *[pt.Pop(w(gl.load())) for w in ws], pt.Approve()), pt.Mode.Application, version=v_rb)
 
+    nref = [2, 3, 4]
+
+    @reg
+    def byref_parameters_frame_pointers():
+        ws = []
+        for n in nref:
+            kinds = ["ref"] * n + ["val"] * R.randint(1, 2) + (["abi"] if R.random() < 0.5 else [])
+            R.shuffle(kinds)
+            ann = {"ref": "pt.ScratchVar", "val": "pt.Expr", "abi": "abi.Uint64"}
+            names = ["p%d" % i for i in range(len(kinds))]
+            refs = [nm for nm, k in zip(names, kinds) if k == "ref"]
+            vals = [nm if k == "val" else nm + ".get()" for nm, k in zip(names, kinds) if k != "ref"]
+            src = "def br%d(%s):\n    return pt.Seq(%s, %s)\n" % (
+                n, ", ".join("%s: %s" % (nm, ann[k]) for nm, k in zip(names, kinds)),
+                ", ".join("%s.store(%s.load() + %s)" % (a, b, vals[i % len(vals)]) for i, (a, b) in enumerate(zip(refs, refs[1:] + refs[:1]))),
+                " + ".join(r_ + ".load()" for r_ in refs))
+            ns = {"pt": pt, "abi": abi}
+            exec(src, ns)
+            ws.append((pt.Subroutine(T.uint64)(ns["br%d" % n]), kinds))
+        vs = [pt.ScratchVar(T.uint64) for _ in range(5)]
+        au = abi.Uint64()
+        calls = []
+        for w, kinds in ws:
+            it = iter(vs)
+            calls.append(pt.Pop(w(*[next(it) if k == "ref" else (pt.Int(7) if k == "val" else au) for k in kinds])))
+        e = pt.Seq(*[v.store(pt.Int(i)) for i, v in enumerate(vs)], au.set(pt.Int(1)), *calls, pt.Approve())
+        out = []
+        for kw in ({"version": 8}, {"version": 9}, {"version": 10}, {"version": 8, "optimize": pt.OptimizeOptions(frame_pointers=True)},
+                   {"version": 10, "optimize": pt.OptimizeOptions(frame_pointers=True, scratch_slots=False)}, {"version": 6}, {"version": 8, "optimize": pt.OptimizeOptions(frame_pointers=False)}):
+            out.append(app(e, **kw))
+        return "\n====\n".join(out)
+
     return P, RC, RB
 
 
@@ -393,8 +475,22 @@ def rebuild(fn, vseed, rounds):
     return first, extra
 
 
+def one(comp, label):
+    try:
+        return ["ok", comp(label)]
+    except RecursionError:
+        return ["exc", "RecursionError"]
+    except Exception as e:  # noqa
+        return ["exc", type(e).__name__]
+
+
 def main():
     vseed = int(sys.argv[1])
+    if sys.argv[2] == "fresh":
+        # a FRESH object of recompile program NAME compiled exactly once, at LABEL
+        P, RC, RB = programs(vseed)
+        json.dump(one(RC[sys.argv[3]]["build"](), sys.argv[4]), sys.stdout)
+        return
     rounds = int(sys.argv[2])
     only = sys.argv[3:]
     out = {}
@@ -408,14 +504,15 @@ def main():
             out[name] = ["exc", "RecursionError"]
         except Exception as e:  # noqa
             out[name] = ["exc", type(e).__name__ + ": " + str(e)[:200]]
-    for name, fn in RC.items():
+    for name, rc in RC.items():
         if only and name not in only:
             continue
         try:
-            att = fn()
+            comp = rc["build"]()
         except Exception as e:  # noqa
             out[name] = ["exc", type(e).__name__ + ": " + str(e)[:200]]
             continue
+        att = [[label, one(comp, label)] for label in rc["seq"]]
         first = {}
         bad = None
         for k, (label, val) in enumerate(att):
